@@ -42,6 +42,7 @@ type c13EntryObs struct {
 }
 
 type c13Logical struct {
+	Chunked bool        `json:"chunked"`
 	Method  string      `json:"method"`
 	Scheme  string      `json:"scheme"`
 	Host    string      `json:"host"`
@@ -295,13 +296,23 @@ func c13Cmd(args []string) error {
 
 		canonC := map[string]string{"sid": "", "theme": ""}
 
-		switch rng.Intn(3) {
+		switch rng.Intn(6) {
 		case 0:
 			hdrs = append(hdrs, [2]string{"Cookie", "sid=abc123"})
 			canonC["sid"] = "abc123"
 		case 1:
 			hdrs = append(hdrs, [2]string{"Cookie", "theme=dark; sid=s-1"})
 			canonC["sid"], canonC["theme"] = "s-1", "dark"
+		case 2: // a cookie whose name starts with the name looked up, in front of the wanted one
+			hdrs = append(hdrs, [2]string{"Cookie", "sid_hint=eu; sid=s-2; themes=x"})
+			canonC["sid"] = "s-2"
+		case 3: // only cookies whose names merely start with the names looked up
+			hdrs = append(hdrs, [2]string{"Cookie", "sidx=nope; theme2=nope"})
+		}
+
+		// the client sends headers named like headers the pipeline sets for the upstream
+		if rng.Intn(4) == 0 {
+			hdrs = append(hdrs, [2]string{pick([]string{"X-Who", "x-who"}), "evil"}, [2]string{"X-Multi", "zero"})
 		}
 
 		var (
@@ -339,6 +350,7 @@ func c13Cmd(args []string) error {
 			ID: fmt.Sprintf("v%d", i+1),
 			Logical: c13Logical{
 				Method: method, Scheme: scheme, Host: host, Path: path, Query: query, Headers: hdrs, Body: string(body),
+				Chunked: len(body) > 0 && rng.Intn(3) == 0,
 			},
 			Canon: c13View{
 				Method: method, Scheme: scheme, Host: host, Path: p, Query: canonQuery(query),
@@ -434,14 +446,14 @@ func c13Exec(beds map[string]*client.Client, c *c13Case) error {
 				uri += "?" + query
 			}
 
-			req = client.Request{Method: method, Path: "/ignored", Body: body}
+			req = client.Request{Method: method, Path: "/ignored", Body: body, Chunked: l.Chunked}
 			req.Headers = append(req.Headers,
 				[2]string{"X-Forwarded-Method", method}, [2]string{"X-Forwarded-Proto", scheme},
 				[2]string{"X-Forwarded-Host", host}, [2]string{"X-Forwarded-Uri", uri})
 			req.Headers = append(req.Headers, hdrs...)
 		case "proxy":
 			mode = app.Proxy
-			req = client.Request{Method: method, Host: host, Path: path, Query: query, Body: body}
+			req = client.Request{Method: method, Host: host, Path: path, Query: query, Body: body, Chunked: l.Chunked}
 			req.Headers = append(req.Headers, [2]string{"X-Forwarded-Proto", scheme})
 			req.Headers = append(req.Headers, hdrs...)
 		default:
